@@ -95,6 +95,7 @@ pub fn run_history(case: &Value) -> Value {
     let mut s: Sentence = Sentence::default();
     let mut steps = vec![];
     let ops = case["ops"].as_array().cloned().unwrap_or_default();
+    let mut n_raw_updates = 0usize;
     for op in &ops {
         let name = op["op"].as_str().unwrap_or("");
         let res: Value = match name {
@@ -119,8 +120,17 @@ pub fn run_history(case: &Value) -> Value {
             }
             "up_raw" | "up_tok" | "up_part" => {
                 let text = cps_to_string(&op["s"]);
+                // raw updates alternate between an owned String and a borrowed &str (the sentence keeps either as a Cow)
+                if name == "up_raw" {
+                    n_raw_updates += 1;
+                }
+                let borrowed: Option<&'static str> =
+                    if name == "up_raw" && n_raw_updates % 2 == 0 { Some(Box::leak(text.clone().into_boxed_str())) } else { None };
                 let r = catch_unwind(AssertUnwindSafe(|| match name {
-                    "up_raw" => s.update_raw(text).is_ok(),
+                    "up_raw" => match borrowed {
+                        Some(b) => s.update_raw(b).is_ok(),
+                        None => s.update_raw(text).is_ok(),
+                    },
                     "up_tok" => s.update_tokenized(&text).is_ok(),
                     _ => s.update_partial_annotation(&text).is_ok(),
                 }));
